@@ -87,7 +87,7 @@ def gen_scripts(tier, seed):
     cases = []
     # the child closes both streams and lives on until it learns that the parent's call has returned (spawn API only):
     # "returns once both streams close", not "once the child has exited"
-    for s in ["co,ce,g,x7", "o100,e50,co,ce,g,x7", "o%d,co,d5,e%d,ce,g,x7" % (2 * PIPE + 17, PIPE + 1), "e10|o%d,co,ce,g,x7" % (PIPE + 1)]:
+    for s in ["co,ce,g,x7", "o100,e50,co,ce,g,x7", "o%d,co,d5,e%d,ce,g,x7" % (2 * PIPE + 17, PIPE + 1), "e10,ce|o%d,co,g,x7" % (PIPE + 1)]:      # (each stream is closed by the thread that writes it: closing it from the other thread would race with the write)
         for w in ("plain", "mapped"):
             cases.append({"class": "streams-closed-child-lives-on", "script": s, "writer": w, "api": "spawn"})
     for i, (cls, s) in enumerate(scripts):
@@ -103,7 +103,7 @@ def run_stream_case(arg):
     req = {"script": case["script"], "child": os.path.join(vp.BIN, "vpchild"), "writer": case["writer"], "api": case["api"],
            "pidfile": pidfile, "watchdog_ms": case.get("watchdog_ms", 10000)}
     try:
-        p = subprocess.run([os.path.join(vp.BIN, "vpmon"), "streams", json.dumps(req)], stdout=subprocess.PIPE, stderr=subprocess.PIPE, timeout=120)
+        p = subprocess.run([os.path.join(vp.BIN, "vpmon"), "streams", json.dumps(req)], stdout=subprocess.PIPE, stderr=subprocess.PIPE, timeout=120, env=dict(os.environ, **vp.hostile_env()))
     except subprocess.TimeoutExpired:
         return case, {"harness_timeout": True}
     finally:
